@@ -177,14 +177,7 @@ def evaluate(case):
             plan = []
 
             def impossible(k, e):
-                # EPERM / EOPNOTSUPP / ENOSYS from copy_file_range or sendfile mean "not supported for these files"
-                # and a kernel can only answer that on the FIRST call of a copy; Rust's std asserts exactly this
-                # (kernel_copy: `assert_eq!(written, 0)`) before falling back to read/write. Injecting them into a
-                # later call of the same copy is not a behaviour of any file system, so it is not enumerated.
-                ev = events[k]
-                if ev.call not in ("copy_file_range", "sendfile") or e not in ("EPERM", "EOPNOTSUPP"):
-                    return False
-                return any(p.call == ev.call and p.path == ev.path and p.ret > 0 for p in events[:k])
+                return S.impossible_fault(events, k, e)
             for k in range(K):
                 plan.append((k, "kill", None))
                 for e in errnos:
